@@ -158,6 +158,18 @@ pub fn weights(profile: &str) -> W {
             w.nolimit_pct = 100;
             w.edit = 12;
         }
+        "C11" => {
+            // every component dump() has to re-create: tabs, margins, modes, charsets, both saved
+            // contexts, pens, the alternate screen, cuts inside sequences
+            w.tabs = 6;
+            w.margins = 8;
+            w.modes = 10;
+            w.alt = 6;
+            w.save = 8;
+            w.charset = 4;
+            w.sgr = 10;
+            w.trunc = 4;
+        }
         "C13" => {
             w.scroll = 20;
             w.text = 40;
@@ -537,10 +549,10 @@ fn gen_garbage(rng: &mut Rng) -> String {
 
 /// REP is the one command whose work is proportional to its count; on very narrow screens 65535
 /// repetitions mean ~65535 scrolls, which the (list-based) model replays in quadratic time, so such
-/// counts are kept for screens of >= 5 columns (and a small share of the narrow ones).
+/// counts are kept for screens of >= 4 columns.
 fn rep_count(rng: &mut Rng, cols: usize, s: String) -> String {
     let big = s.len() >= 5;
-    if big && cols < 5 && !rng.chance(4) {
+    if big && (cols < 4 || (cols < 6 && !rng.chance(10))) {
         rng.pick(&["1000", "300", "2000"]).to_string()
     } else {
         s
@@ -880,6 +892,58 @@ const PROBES: [&str; 16] = [
     "\u{1b}[?6l\u{1b}[1;1Hx",
 ];
 
+/// C11 (KF1/KF3 territory): origin mode on and the cursor parked outside the scroll region (only a
+/// restored cursor can get there) with the saved contexts of both screens in play.  Depending on the
+/// random choices dump step 9 is faithful, restores other modes (KF1) or stops at a margin (KF3).
+fn gen_park_outside(rng: &mut Rng, cols: usize, rows: usize) -> String {
+    fn margins(rng: &mut Rng, rows: usize) -> String {
+        if rows < 2 {
+            return "\u{1b}[r".into();
+        }
+        let t = rng.range(1, rows - 1);
+        let b = rng.range(t + 1, rows);
+        format!("\u{1b}[{};{}r", t, b)
+    }
+    fn alt(rng: &mut Rng) -> String {
+        rng.pick(&["\u{1b}[?1047h", "\u{1b}[?1047l", "\u{1b}[?47h", "\u{1b}[?47l", "\u{1b}[?1049h", "\u{1b}[?1049l"]).to_string()
+    }
+    let save = ["\u{1b}7", "\u{1b}[s", "\u{1b}[?1048h"];
+    let restore = ["\u{1b}8", "\u{1b}[u", "\u{1b}[?1048l"];
+    let mut s = String::from("\u{1b}[?6h");
+    s.push_str(&margins(rng, rows));
+    if rng.chance(50) {
+        s.push_str(&format!("\u{1b}[{};{}H", rng.range(1, rows), rng.range(1, cols + 1)));
+    }
+    if rng.chance(20) {
+        s.push_str("\u{1b}[?7l");
+    }
+    s.push_str(*rng.pick(&save));
+    if rng.chance(20) {
+        s.push_str("\u{1b}[?7h");
+    }
+    if rng.chance(50) {
+        s.push_str(&alt(rng));
+    }
+    s.push_str(&margins(rng, rows));
+    if rng.chance(40) {
+        if rng.chance(50) {
+            s.push_str(&format!("\u{1b}[{};{}H", rng.range(1, rows), rng.range(1, cols + 1)));
+        }
+        s.push_str(*rng.pick(&save));
+    }
+    if rng.chance(50) {
+        s.push_str(&alt(rng));
+    }
+    s.push_str(*rng.pick(&restore));
+    if rng.chance(60) {
+        s.push_str(&alt(rng));
+    }
+    if rng.chance(25) {
+        s.push_str(*rng.pick(&["\u{1b}[?7l", "\u{1b}[?7h", "\u{1b}[999C", "\u{1b}[999CX"]));
+    }
+    s
+}
+
 /// C11: history, cut, dump into a fresh terminal, probes + random continuation, Obs compared
 fn case_c11(rng: &mut Rng, w: &W, out: &mut impl Write) {
     let (mut cols, mut rows) = gen_size(rng, w);
@@ -893,6 +957,10 @@ fn case_c11(rng: &mut Rng, w: &W, out: &mut impl Write) {
         }
     } else {
         history(rng, w, &[0], &mut cols, &mut rows, nops, out);
+    }
+    if rng.chance(12) {
+        let s = gen_park_outside(rng, cols, rows);
+        writeln!(out, "S 0 {}", hex_encode(&s)).unwrap();
     }
     if rng.chance(50) {
         // cut inside a sequence
@@ -1008,6 +1076,8 @@ fn case_c16(rng: &mut Rng, w: &W, out: &mut impl Write) {
     let enter = *rng.pick(&[47usize, 1047, 1049]);
     writeln!(out, "X C16MARK 0").unwrap();
     writeln!(out, "S 0 {}", hex_encode(&format!("\u{1b}[?{}h", enter))).unwrap();
+    // text() itself (not only the state it is computed from) is queried before every directive
+    writeln!(out, "TEXT 0").unwrap();
     writeln!(out, "X C16ENTER 0 {}", enter).unwrap();
     let mut wa = w.clone();
     wa.alt = 0;
@@ -1037,10 +1107,12 @@ fn case_c16(rng: &mut Rng, w: &W, out: &mut impl Write) {
             };
             writeln!(out, "S 0 {}", hex_encode(&s)).unwrap();
         }
+        writeln!(out, "TEXT 0").unwrap();
         writeln!(out, "X C16DURING 0").unwrap();
     }
     let leave = if enter == 1049 && rng.chance(70) { 1049 } else { *rng.pick(&[47usize, 1047, 1049]) };
     writeln!(out, "S 0 {}", hex_encode(&format!("\u{1b}[?{}l", leave))).unwrap();
+    writeln!(out, "TEXT 0").unwrap();
     writeln!(out, "X C16AFTER 0 {} {}", enter, leave).unwrap();
 }
 
